@@ -5,7 +5,7 @@ not changes them.
 
 Probed facts (Lean data in Gen/C01.lean, decided against the model in Props/C01.lean):
  * compileProbes   for every pattern of a fixed cube (literals with every regex metacharacter, white space, non-ASCII,
-                   `%`, `*` inside; `{n}`, several per segment, `{n:rx}` incl. nested braces and a colon in the regex;
+                   `%`, `*` inside; `{n}`, several per segment, `{n:rx}` incl. nested braces, a colon in the regex and capturing groups of the regex's own;
                    old-style `:n`, mixed; `*rest`, `*` alone, `*rest` not at the end; missing leading slash; bad and
                    repeated group names; unbalanced braces):
      - regex       the text `_compile_route` hands to `re.compile` (recorded by a wrapper put in place of
@@ -40,7 +40,7 @@ CUBE = [
     '/{x}', '{x}', '/a/{x}/b', '/{x}{y}', '/{x}-{y}.{z}', '/{_a1}/{B}', '/{x}/', '/a.b/{x}',
     # custom regexes
     '/{x:\\d+}', '/{y:\\d{4}}/{m:\\d{2}}', '/{x:[a-z]+}', '/{x:(?:a|b)}', '/{x:.*}', '/{a:b:c}', '/{x:\\w+?}{y}', '/{x:(?s:.)}z',
-    '/{x:[^/]+}', '/{x:}',
+    '/{x:[^/]+}', '/{x:}', '/{a:((?:x|y))}/{b}', '/{a:(?:((?:x|y))\\-)+}{b:(\\d)(\\d)}/*r',
     # old style
     '/:x', ':x', '/a/:x/b', '/:x-:y', '/:_a1/:b-c', '/a:b', '/a/:x/{y}', '/:1x', '/a:/b', '/::x',
     # remainder
@@ -70,6 +70,8 @@ EXTRA_PATHS = {
     '/{x:\\w+?}{y}': ['/abc', '/a'],
     '/{x:(?s:.)}z': ['/\nz', '/az', '/z'],
     '/{x:}': ['/', '/a'],
+    '/{a:((?:x|y))}/{b}': ['/x/42', '/y/x', '/z/1'],
+    '/{a:(?:((?:x|y))\\-)+}{b:(\\d)(\\d)}/*r': ['/x-y-42/p/q', '/x-42/', '/x42/'],
     '/:x-:y': ['/a-b-c', '/a-'],
     '/:_a1/:b-c': ['/p/q-c', '/p/q'],
     '/a:b': ['/av', '/a:b'],
@@ -105,6 +107,9 @@ RX_LIB = [
     ('(?s:.)', '.all'),
     ('', '.eps'),
     ('a{1}b{2}', ".seq (.rep true 1 (some 1) (.chr 'a')) (.rep true 2 (some 2) (.chr 'b'))"),
+    ('((?:x|y))', ".grp none (.alt (.chr 'x') (.chr 'y'))"),
+    ('(?:((?:x|y))\\-)+', ".rep true 1 none (.seq (.grp none (.alt (.chr 'x') (.chr 'y'))) (.chr '-'))"),
+    ('(\\d)(\\d)', '.seq (.grp none (.esc .d false)) (.grp none (.esc .d false))'),
 ]
 
 # mapper scenarios: (declarations [(name, pattern, predicates, static)], PATH_INFO as a latin-1 str or None)
